@@ -127,7 +127,7 @@ func main() {
 					fmt.Println("   ", t)
 				}
 			}
-			if len(o.Violations) >= *maxViol {
+			if len(o.Violations) >= *maxViol || res.Fatal {
 				break
 			}
 		} else if *only >= 0 {
